@@ -71,9 +71,8 @@ class C03(Prop):
         elif rng.random() < 0.12:
             from rtverif import pastmodel
             from rtverif.props.c06 import SEMS
-            if not pastmodel.past_over_future(f):       # (keeps this class away from the open finding)
-                case['ia'] = [rng.choice(SEMS[1:]), dict((k, rng.choice(['input', 'output'])) for k in names)]
-                case['online_kind'] = 'dt'          # (the online-only class takes no semantics argument)
+            case['ia'] = [rng.choice(SEMS[1:]), dict((k, rng.choice(['input', 'output'])) for k in names)]
+            case['online_kind'] = 'dt'          # (the online-only class takes no semantics argument)
         elif modular and lang.depth(f) >= 2:
             # the same formula written with named sub-specifications (every occurrence of a chosen sub-formula
             # becomes a reference to one name)
@@ -167,7 +166,7 @@ class C03(Prop):
                     off = 'raised %s' % type(e).__name__
                 if isinstance(off, float) and ref.same(on[i], off, rel):
                     continue     # offline itself deviates from the reference: reported by C01, not here
-                known = None if case.get('ia') else findings.c03_attribution(f, data, n, i, on[i], rel)
+                known = None        # (D-past-over-future was repaired for discrete time, 895bb5b: nothing is attributed here)
                 if known and i + 1 < n and not v.viol:
                     # explained by the open finding at this update: remember it, but keep looking for an update
                     # that the defect model does NOT explain (another defect on the same formula)
